@@ -304,7 +304,7 @@ def run(repo: Repo, L: Ledger, tier: str):
         yn = ys[0][1].value
         mult = [n for n in ast.walk(yn) if isinstance(n, ast.BinOp) and isinstance(n.op, ast.Mult)]
         if len(mult) != 1:
-            okg, whyg = False, f"gap chunk '{norm(yn)}' is not <character> * <count>"
+            raise AnalysisError(f"{g.short}: gap chunk '{norm(yn)[:60]}' is not written as <character> * <count>: form not understood")
         else:
             stt = State()
             stt.env = r.callee_env
